@@ -127,6 +127,20 @@ HIST_ROOTS = [["module"], ["module"], ["dfg", ["B"], ["B"]], ["case", [], ["I"]]
 # (seeded round 2) only in the palette of the widened cases, so that the stream of the others is the one of before:
 # operation attributes no builder sets by default (seeded C02-b: the extension delta of a DFG)
 WIDE_OPS = [["dfg", ["B"], ["B"], ["verif.ext", "a.b"]], ["dfg", [], ["I"], ["verif.ext"]]]
+# (seeded C02-i) extension-requirement LISTS with >= 2 entries everywhere an operation carries a function type: the
+# written order and repeated names are part of the encoded operation (ExtensionSet is a list), a loader that takes them
+# through a Python set permutes / shortens them.  Which permutation a set yields depends on the hash seed, so every list
+# comes in both orders (one of the two differs from the set order under ANY seed) and one list repeats a name (its
+# de-duplication shows under any seed); under ./check's PYTHONHASHSEED=0 REQ_LISTS[0], [2], [3], [4], [5] all differ.
+REQ_LISTS = [["a.b", "verif.ext"], ["verif.ext", "a.b"], ["prelude", "logic", "prelude"],
+             ["prelude", "arithmetic.int", "arithmetic.float", "logic", "collections.list"],
+             ["collections.list", "logic", "arithmetic.float", "arithmetic.int", "prelude"],
+             ["z.ext", "verif.ext", "verif.ext", "a.b"]]
+WIDE_OPS += [["dfg", ["B"], ["B"], REQ_LISTS[0]], ["dfg", ["I"], [], REQ_LISTS[2]],
+             ["funcdecl", "reqs.decl", "nat", REQ_LISTS[3]], ["funcdecl", "reqs.twice", "none", REQ_LISTS[2]],
+             ["customr", "reqs.op", ["B"], ["B", "I"], REQ_LISTS[4]], ["customr", "reqs.op2", ["Q"], ["Q"], REQ_LISTS[0]],
+             ["callind", ["B"], ["B"], REQ_LISTS[5]], ["noopfn", ["B"], [], REQ_LISTS[3]],
+             ["inputfn", ["I"], ["B"], REQ_LISTS[0]]]
 
 
 def mk_mut_op(spec):
@@ -139,9 +153,23 @@ def mk_mut_op(spec):
         return ops.Const(progs.mk_val(spec[1]))
     if k == "funcdecl":
         from hugr import tys
-        params = {"nat": [tys.TypeTypeParam(tys.TypeBound.Any), tys.BoundedNatParam()],
+        params = {"nat": [tys.TypeTypeParam(tys.TypeBound.Any), tys.BoundedNatParam()], "none": [],
                   "listnat": [tys.ListParam(tys.BoundedNatParam()), tys.TupleParam([tys.BoundedNatParam(), tys.BoundedNatParam(3)])]}[spec[2]]
+        if len(spec) > 3:       # (seeded C02-i) the body requires several extensions
+            return ops.FuncDecl(spec[1], tys.PolyFuncType(params, tys.FunctionType([tys.Bool], [tys.Bool], list(spec[3]))))
         return ops.FuncDecl(spec[1], tys.PolyFuncType(params, tys.FunctionType([tys.Bool], [tys.Bool])))
+    if k in ("customr", "callind", "noopfn", "inputfn") and len(spec) > 3:
+        # (seeded C02-i) a function type with a list of requirements: signature of an extension operation / of an
+        # indirect call, and as a VALUE type (type argument of Noop, type of an Input port)
+        from hugr import tys
+        ft = tys.FunctionType([progs.mk_ty(t) for t in spec[-3]], [progs.mk_ty(t) for t in spec[-2]], list(spec[-1]))
+        if k == "customr":
+            return ops.Custom(spec[1], ft, extension="verif.ext")
+        if k == "callind":
+            return ops.CallIndirect(ft)
+        if k == "noopfn":
+            return ops.Noop(ft)
+        return ops.Input([ft, tys.Bool])
     if k == "dfg":
         if len(spec) > 3:       # with an extension delta (third constructor argument)
             return ops.DFG([progs.mk_ty(t) for t in spec[1]], [progs.mk_ty(t) for t in spec[2]], list(spec[3]))
@@ -267,6 +295,23 @@ def named_program(name):
         inner.set_outputs(y, x)                # a second set_outputs: Output 5 and DFG 3 get other types in place
         d.set_outputs(inner[1], b)             # ... and Output 2 and the root
         return d.hugr
+    if name == "multi_reqs":                   # seeded C02-i: function types requiring SEVERAL extensions, in a written order
+        # 0 Module, 1 FuncDecl many, 2 FuncDefn main, 3 Input, 4 Output, 5 Call, 6 LoadFunc, 7 CallIndirect, 8 Custom, 9 DFG ..
+        m = Module()
+        sig = tys.FunctionType([tys.Bool], [tys.Bool], list(REQ_LISTS[3]))
+        decl = m.declare_function("many", tys.PolyFuncType([], sig))
+        f = m.define_function("main", [tys.Bool], [tys.Bool])
+        (x,) = f.inputs()
+        c = f.call(decl, x)                                    # Call.func_sig / instantiation
+        lf = f.load_function(decl)                             # LoadFunction; the wire's type is the function type
+        ci = f.add_op(ops.CallIndirect(), lf, c)               # signature taken from the wire
+        cu = f.add_op(ops.Custom("Rz", tys.FunctionType([tys.Bool], [tys.Bool], list(REQ_LISTS[0])), extension="my.ext"), ci)
+        # the delta of a DFG (constructor argument only; a name written twice), built with the public Dfg.new_nested
+        inner = Dfg.new_nested(ops.DFG([tys.Bool], None, list(REQ_LISTS[2])), m.hugr, f.parent_node)
+        inner.set_outputs(*inner.inputs())
+        m.hugr.add_link(cu.out(0), inner.parent_node.inp(0))
+        f.set_outputs(inner.parent_node.out(0))
+        return m.hugr
     if name == "cfg_delta":                    # D9: block with an extension delta
         c = Cfg(tys.Bool)
         with c.add_entry() as e:
@@ -1434,6 +1479,21 @@ class RT(fw.Prop):
                 ["add_node", ["input", ["B"]], 0, None, None], ["add_node", ["output", ["B"]], 0, None, None],
                 ["add_node", ["dfg", ["B"], ["B"], ["verif.ext", "a.b"]], 0, {"k": 0}, None], ["add_link", 1, 0, 3, 0],
                 ["add_link", 3, 0, 2, 0]]},
+            # seeded C02-i: lists of >= 2 extension requirements (written order, a repeated name) on every function type an
+            # operation carries: FuncDecl body, Call / LoadFunction / CallIndirect, Custom signature, DFG delta, and as a
+            # value type (Noop's type argument, Input row)
+            {"kind": "hist", "root": ["module"], "muts": [["add_node", ["funcdecl", "reqs.twice", "none", REQ_LISTS[2]], 0, None, None]]},
+            P("multi_reqs"),
+            {"kind": "hist", "root": ["dfg", ["B"], ["B"], REQ_LISTS[4]], "muts": [
+                ["add_node", ["inputfn", ["I"], ["B"], REQ_LISTS[0]], 0, None, None], ["add_node", ["output", ["B"]], 0, None, None],
+                ["add_node", ["callind", ["B"], ["B"], REQ_LISTS[5]], 0, {"k": 1}, None],
+                ["add_node", ["customr", "reqs.op", ["B"], ["B", "I"], REQ_LISTS[1]], 0, None, None],
+                ["add_node", ["noopfn", ["B"], [], REQ_LISTS[3]], 0, None, None],
+                ["add_node", ["funcdecl", "reqs.decl", "nat", REQ_LISTS[3]], 0, None, None],
+                ["add_node", ["dfg", ["I"], [], REQ_LISTS[2]], 0, None, None],
+                ["add_link", 1, 0, 3, 0], ["add_link", 1, 1, 3, 1], ["add_link", 3, 0, 4, 0], ["add_link", 4, 0, 2, 0],
+                ["add_link", 4, 1, 7, 0], ["add_order", 1, 5], ["delete_node", 5]]},
+            {"kind": "pkg", "progs": ["multi_reqs"], "ext": False},
             {"kind": "pkg", "progs": ["poly_func", "two_consts"], "ext": True},
             {"kind": "ext", "which": "custom"},
             # a lowering HUGR inside an extension must be a wire-format document (FixedHugr, fixed c8729f5);
@@ -1814,7 +1874,21 @@ class RT(fw.Prop):
         d = {"kinds": {}, "nodes": [], "mutations": {}, "with_holes": 0, "with_metadata": 0, "with_order_links": 0,
              "guard_broken": {}, "skipped": 0, "load_errors": {}, "schema_failures": 0, "with_parallel_links": 0,
              "with_parallel_order_links": 0, "serialized_mid_history": 0, "op_changed_in_place_after_serialization": 0,
-             "built_with_serialization_after_every_statement": 0}
+             "built_with_serialization_after_every_statement": 0, "with_a_requirement_list_of_2_or_more": 0,
+             "with_a_requirement_list_a_python_set_would_change": 0}
+
+        def req_lists(v):
+            """every extension-requirement list inside an encoded operation"""
+            if isinstance(v, dict):
+                for k, x in v.items():
+                    if k in ("runtime_reqs", "extension_delta") and isinstance(x, list):
+                        yield x
+                    else:
+                        yield from req_lists(x)
+            elif isinstance(v, list):
+                for x in v:
+                    yield from req_lists(x)
+
         for c, o in zip(cases, observations):
             d["kinds"][c["kind"]] = d["kinds"].get(c["kind"], 0) + 1
             if "skip" in o:
@@ -1841,6 +1915,10 @@ class RT(fw.Prop):
             d["serialized_mid_history"] += "ser" in ks
             d["op_changed_in_place_after_serialization"] += "ser" in ks and "edit_op" in ks[ks.index("ser"):]
             d["built_with_serialization_after_every_statement"] += bool(c.get("probe"))
+            # (seeded C02-i) written order / repeated names of extension requirements
+            rls = [r for n in a["nodes"] for r in req_lists(n["op"]) if len(r) >= 2]
+            d["with_a_requirement_list_of_2_or_more"] += bool(rls)
+            d["with_a_requirement_list_a_python_set_would_change"] += any(list(set(r)) != r for r in rls)
             for g in classify_guard(a):
                 d["guard_broken"][g] = d["guard_broken"].get(g, 0) + 1
             if "load_error" in o:
